@@ -61,6 +61,10 @@ class Plane(GeoBody):
                 isinstance(a, Point) and isinstance(b, Vector) and isinstance(c, Vector)
             ):
                 vab, vac = b, c
+            if vab.parallel(vac):
+                raise ValueError(
+                    "Cannot initialize a Plane with collinear points or parallel vectors"
+                )
             # We need a vector orthogonal to the two given ones so we
             # (the length doesn't matter) so we just use the cross
             # product
